@@ -155,3 +155,428 @@ def interval(fn, nid, env, depth=0):
             return None
         return (min(a[0], b[0]), max(a[1], b[1]))
     return None
+
+
+# ---------------------------------------------------------------------------
+# path-sensitive integer bounds (used for shift amounts, subscripts, key lengths)
+
+def _tr_or(v, default=(-(2 ** 63), 2 ** 64 - 1)):
+    return type_range(v) or default
+
+
+class Bounds(object):
+    """bounds of integer expressions at a program point, over all feasible paths of one function.
+    Tracked variables (locals, parameters, members of this) get an interval that is updated by assignments and
+    refined by branch conditions; loops are unrolled while the abstract state changes and widened after that."""
+
+    def __init__(self, fn, member_ranges=None, param_ranges=None, widen_after=40):
+        self.fn = fn
+        self.members = dict(MEMBER_RANGES)
+        if member_ranges:
+            self.members.update(member_ranges)
+        self.params = dict(param_ranges or {})
+        self.widen_after = widen_after
+
+    # -- expression evaluation under a state --------------------------------
+    def key_of(self, nid):
+        fn = self.fn
+        s = fn.strip(nid)
+        v = fn.nodes.get(s, {})
+        if v.get('k') == 'DeclRefExpr' and v.get('rk') in ('local', 'param') and (v.get('w') or v.get('bool')):
+            return v.get('name')
+        if v.get('k') == 'MemberExpr' and v.get('this') and v.get('rk') == 'field' and v.get('w'):
+            return 'this.' + v.get('name')
+        return None
+
+    def initial(self, key, v):
+        if key in self.members:
+            return self.members[key]
+        if key in self.params:
+            return self.params[key]
+        return _tr_or(v)
+
+    def ev(self, nid, state, depth=0):
+        fn = self.fn
+        if depth > 24:
+            return None
+        s = fn.strip(nid)
+        v = fn.nodes.get(s)
+        if v is None:
+            return None
+        k = v['k']
+        if 'v' in v and k not in ('CallExpr', 'CXXMemberCallExpr'):
+            return (v['v'], v['v'])
+        key = self.key_of(s)
+        if key is not None:
+            if key in state:
+                return state[key]
+            return self.initial(key, v)
+        if k == 'FloatingLiteral':
+            try:
+                f = float(v.get('fv'))
+                return (f, f)
+            except (TypeError, ValueError):
+                return None
+        if k in facts.CAST_KINDS:
+            inner = self.ev(v['ch'][0], state, depth + 1) if v.get('ch') else None
+            tr = type_range(v)
+            if inner is None:
+                return tr
+            if tr is None or (inner[0] >= tr[0] and inner[1] <= tr[1]):
+                return inner
+            return tr
+        if k == 'UnaryOperator':
+            op = v['op']
+            inner = self.ev(v['ch'][0], state, depth + 1)
+            if inner is None:
+                return type_range(v)
+            if op == '-':
+                return (-inner[1], -inner[0])
+            if op == '+':
+                return inner
+            if op in ('++', '--') and v.get('post'):
+                # the side effect is already applied when the enclosing expression is evaluated
+                d = 1 if op == '++' else -1
+                return (inner[0] - d, inner[1] - d)
+            if op in ('++', '--'):
+                return inner
+            if op == '!':
+                return (0, 1)
+            return type_range(v)
+        if k == 'BinaryOperator':
+            op = v['op']
+            if op in ('<', '>', '<=', '>=', '==', '!=', '&&', '||'):
+                return (0, 1)
+            a = self.ev(v['lhs'], state, depth + 1)
+            b = self.ev(v['rhs'], state, depth + 1)
+            r = arith(op, a, b, bool(v.get('fl')))
+            tr = type_range(v)
+            if r is None:
+                return tr
+            if tr and not (r[0] >= tr[0] and r[1] <= tr[1]):
+                # wrap-around possible: fall back to the type range
+                return tr
+            return r
+        if k == 'ConditionalOperator':
+            a = self.ev(v['then'], state, depth + 1)
+            b = self.ev(v['else'], state, depth + 1)
+            if a is None or b is None:
+                return type_range(v)
+            return (min(a[0], b[0]), max(a[1], b[1]))
+        if k == 'CallExpr':
+            cal = (v.get('callee') or '').split('::')[-1]
+            args = v.get('args', [])
+            if cal in ('min', 'max') and len(args) == 2:
+                a = self.ev(args[0], state, depth + 1)
+                b = self.ev(args[1], state, depth + 1)
+                if a and b:
+                    if cal == 'min':
+                        return (min(a[0], b[0]), min(a[1], b[1]))
+                    return (max(a[0], b[0]), max(a[1], b[1]))
+            if cal in ('exp2', 'exp2f') and args:
+                a = self.ev(args[0], state, depth + 1)
+                if a and -1000 < a[0] and a[1] < 1000:
+                    return (2.0 ** a[0], 2.0 ** a[1])
+            return type_range(v)
+        if k == 'UnaryExprOrTypeTraitExpr' and 'v' in v:
+            return (v['v'], v['v'])
+        return type_range(v)
+
+    # -- state transfer ----------------------------------------------------
+    def slice_keys(self, roots):
+        """tracked variables: those in the queried expressions plus everything they are compared with / computed from"""
+        fn = self.fn
+        keys = set()
+        for r in roots:
+            for x in fn.walk(r):
+                k = self.key_of(x)
+                if k:
+                    keys.add(k)
+        # variables of loop / branch conditions steer how often tracked variables are updated
+        condkeys = set()
+        for b in fn.blocks.values():
+            if b.cond is not None and b.tk != 'SwitchStmt':
+                for x in fn.walk(b.cond):
+                    k = self.key_of(x)
+                    if k:
+                        condkeys.add(k)
+        if len(condkeys | keys) <= 14:
+            keys |= condkeys
+        changed = True
+        while changed:
+            changed = False
+            for nid, d, rhs, op, lhs in fn.assignments():
+                tk = None
+                if lhs is not None:
+                    tk = self.key_of(lhs)
+                elif d:
+                    tk = d.split(':')[-1] if not d.startswith('this.') else d
+                if tk in keys and rhs is not None:
+                    for x in fn.walk(rhs):
+                        k = self.key_of(x)
+                        if k and k not in keys:
+                            keys.add(k)
+                            changed = True
+            for b in fn.blocks.values():
+                if b.cond is None:
+                    continue
+                ks = set()
+                for x in fn.walk(b.cond):
+                    k = self.key_of(x)
+                    if k:
+                        ks.add(k)
+                if ks & keys and not ks <= keys and len(ks) <= 4:
+                    keys |= ks
+                    changed = True
+        return keys
+
+    def _assign(self, state, key, iv, v):
+        tr = self.initial(key, v) if key in self.members else _tr_or(v)
+        if key in self.members or iv is None:
+            pass
+        st = dict(state)
+        if iv is None:
+            st[key] = _tr_or(v)
+        else:
+            t = _tr_or(v)
+            if iv[0] < t[0] or iv[1] > t[1]:
+                st[key] = t
+            else:
+                st[key] = iv
+        return st
+
+    def transfer(self, state, e, keys):
+        fn = self.fn
+        v = fn.nodes[e]
+        k = v['k']
+        if k in ('BinaryOperator', 'CompoundAssignOperator') and v.get('op', '').endswith('=') and \
+                v['op'] not in ('==', '!=', '<=', '>='):
+            key = self.key_of(v['lhs'])
+            if key in keys:
+                lv = fn.nodes[fn.strip(v['lhs'])]
+                if v['op'] == '=':
+                    iv = self.ev(v['rhs'], state)
+                else:
+                    a = self.ev(v['lhs'], state)
+                    b = self.ev(v['rhs'], state)
+                    iv = arith(v['op'][:-1], a, b, False)
+                return self._assign(state, key, iv, lv)
+        elif k == 'UnaryOperator' and v.get('op') in ('++', '--'):
+            key = self.key_of(v['ch'][0])
+            if key in keys:
+                lv = fn.nodes[fn.strip(v['ch'][0])]
+                a = self.ev(v['ch'][0], state)
+                d = 1 if v['op'] == '++' else -1
+                iv = (a[0] + d, a[1] + d) if a else None
+                return self._assign(state, key, iv, lv)
+        elif k == 'DeclStmt':
+            st = state
+            for dd in v.get('decls', []):
+                if dd['name'] in keys and (dd.get('w') or dd.get('bool')):
+                    iv = self.ev(dd['init'], st) if 'init' in dd else None
+                    st = self._assign(st, dd['name'], iv, dd)
+            return st
+        elif k in ('CallExpr', 'CXXMemberCallExpr', 'CXXConstructExpr'):
+            st = None
+            sig = v.get('sig') or ''
+            try:
+                ptypes = [p.strip() for p in sig[sig.index('(') + 1:sig.rindex(')')].split(',')]
+            except ValueError:
+                ptypes = []
+            for i, a in enumerate(v.get('args', [])):
+                s = fn.strip(a)
+                sv = fn.nodes.get(s, {})
+                tgt = None
+                if sv.get('k') == 'UnaryOperator' and sv.get('op') == '&':
+                    tgt = self.key_of(sv['ch'][0])
+                    tv = fn.nodes.get(fn.strip(sv['ch'][0]), {})
+                elif i < len(ptypes) and ptypes[i].endswith('&') and not ptypes[i].startswith('const'):
+                    tgt = self.key_of(a)
+                    tv = sv
+                if tgt in keys:
+                    st = dict(st if st is not None else state)
+                    st[tgt] = _tr_or(tv)
+            if k == 'CXXMemberCallExpr' and not sig.endswith(' const') and v.get('obj') is not None and \
+                    fn.nodes.get(fn.strip(v['obj']), {}).get('k') == 'CXXThisExpr':
+                # non-const method on this: members may change
+                st = dict(st if st is not None else state)
+                for kk in list(st.keys()):
+                    if kk.startswith('this.') and kk not in self.members:
+                        del st[kk]
+            if st is not None:
+                return st
+        return state
+
+    def refine(self, state, dnf, keys):
+        """returns refined state or None if infeasible"""
+        fn = self.fn
+        results = []
+        for conj in dnf:
+            st = dict(state)
+            feasible = True
+            for a in conj:
+                if a[0] != 'cmp':
+                    continue
+                _, l, op, r = a
+                for (x, y, o) in ((l, r, op), (r, l, facts.CMP_MIRROR[op])):
+                    key = self.key_of(x)
+                    if key is None or key not in keys:
+                        continue
+                    xv = fn.nodes[fn.strip(x)]
+                    cur = st.get(key) or self.initial(key, xv)
+                    oth = self.ev(y, st)
+                    if oth is None:
+                        continue
+                    lo, hi = cur
+                    if o == '<':
+                        hi = min(hi, oth[1] - 1)
+                    elif o == '<=':
+                        hi = min(hi, oth[1])
+                    elif o == '>':
+                        lo = max(lo, oth[0] + 1)
+                    elif o == '>=':
+                        lo = max(lo, oth[0])
+                    elif o == '==':
+                        lo, hi = max(lo, oth[0]), min(hi, oth[1])
+                    elif o == '!=':
+                        if oth[0] == oth[1]:
+                            if lo == oth[0]:
+                                lo += 1
+                            if hi == oth[0]:
+                                hi -= 1
+                    if lo > hi:
+                        feasible = False
+                        break
+                    st[key] = (lo, hi)
+                if not feasible:
+                    break
+            if feasible:
+                results.append(st)
+        if not results:
+            return None
+        if len(results) == 1:
+            return results[0]
+        out = {}
+        for key in set().union(*[set(r.keys()) for r in results]):
+            ivs = [r.get(key) for r in results]
+            if any(i is None for i in ivs):
+                continue
+            out[key] = (min(i[0] for i in ivs), max(i[1] for i in ivs))
+        return out
+
+    def at(self, queries):
+        """queries: list of (site node, expression node). Returns {index: (lo, hi, witness path)} hull over all
+        feasible paths; a missing index means the site is unreachable."""
+        fn = self.fn
+        keys = self.slice_keys([q[1] for q in queries])
+        sites = {}
+        for i, (site, expr) in enumerate(queries):
+            p = fn.pos(site)
+            if p is None:
+                continue
+            blk = fn.blocks[p[0]]
+            el = blk.elems[p[1]] if p[1] < len(blk.elems) else None
+            sites.setdefault(el, []).append(i)
+        res = {}
+        visits = {}
+        seen_iv = {}
+
+        def freeze(st):
+            return tuple(sorted(st.items()))
+
+        def on_elem(user, e, path):
+            st = dict(user)
+            if e in sites:
+                for i in sites[e]:
+                    iv = self.ev(queries[i][1], st)
+                    if iv is None:
+                        iv = _tr_or(fn.nodes[fn.strip(queries[i][1])])
+                    old = res.get(i)
+                    if old is None:
+                        res[i] = (iv[0], iv[1], path, path)
+                    else:
+                        lo, hi, plo, phi = old
+                        if iv[0] < lo:
+                            lo, plo = iv[0], path
+                        if iv[1] > hi:
+                            hi, phi = iv[1], path
+                        res[i] = (lo, hi, plo, phi)
+            st2 = self.transfer(st, e, keys)
+            return freeze(st2) if st2 is not st else user
+
+        ex = None
+
+        def on_edge(user, b, j, dnf):
+            st = self.refine(dict(user), dnf, keys)
+            if st is None:
+                return None
+            tgt = fn.blocks[b].succs[j]
+            cnt = visits.get(tgt, 0) + 1
+            visits[tgt] = cnt
+            if cnt > self.widen_after:
+                # widening: hull with everything seen at this block, then type range if still moving
+                hist = seen_iv.setdefault(tgt, {})
+                for key, iv in list(st.items()):
+                    h = hist.get(key)
+                    if h is None:
+                        hist[key] = iv
+                    else:
+                        nh = (min(h[0], iv[0]), max(h[1], iv[1]))
+                        if nh != h and cnt > 2 * self.widen_after:
+                            nh = (-(2 ** 63), 2 ** 64 - 1)
+                        hist[key] = nh
+                        st[key] = nh
+            return freeze(st)
+
+        ex = facts.Explorer(fn, on_elem=on_elem, on_edge=on_edge)
+        self.explorer = ex
+        ex.run(fn.entry, 0, freeze({}), max_states=400000)
+        return res
+
+
+def arith(op, a, b, floating):
+    if a is None or b is None:
+        return None
+    if op == '+':
+        return (a[0] + b[0], a[1] + b[1])
+    if op == '-':
+        return (a[0] - b[1], a[1] - b[0])
+    if op == '*':
+        c = [a[0] * b[0], a[0] * b[1], a[1] * b[0], a[1] * b[1]]
+        return (min(c), max(c))
+    if op == '/':
+        if b[0] <= 0 <= b[1]:
+            return None
+        c = [a[0] / b[0], a[0] / b[1], a[1] / b[0], a[1] / b[1]]
+        lo, hi = min(c), max(c)
+        if not floating:
+            lo = math.floor(lo) if lo < 0 else int(lo)
+            hi = int(hi) if hi >= 0 else math.ceil(hi)
+        return (lo, hi)
+    if op == '%':
+        if b[0] > 0 and a[0] >= 0:
+            return (0, min(a[1], b[1] - 1))
+        return None
+    if op == '<<':
+        if b[0] < 0 or b[1] > 64 or a[0] < 0:
+            return None
+        return (int(a[0]) << int(b[0]), int(a[1]) << int(b[1]))
+    if op == '>>':
+        if b[0] < 0 or a[0] < 0:
+            return None
+        return (int(a[0]) >> int(min(b[1], 64)), int(a[1]) >> int(b[0]))
+    if op == '&':
+        if a[0] >= 0 and b[0] >= 0:
+            return (0, min(a[1], b[1]))
+        if b[0] >= 0:
+            return (0, b[1])
+        if a[0] >= 0:
+            return (0, a[1])
+        return None
+    if op == '|' or op == '^':
+        if a[0] >= 0 and b[0] >= 0:
+            m = max(a[1], b[1])
+            bits = int(m).bit_length()
+            return (0, (1 << bits) - 1)
+        return None
+    return None
